@@ -333,6 +333,10 @@ func cliCase(o *kit.Out, r *kit.Rand, idx int) {
 		teardownHow = 1 + (idx/5)%5 // every way in turn
 	}
 
+	markSetupT := teardownHow > 0 && (idx/5)%2 == 0
+	if markSetupT {
+		o.Count("cli", "scenario handle marked during the run, teardown fails")
+	}
 	var started atomic.Int64
 	name := fmt.Sprintf("c08cli%d", idx)
 	inst := f1.New()
@@ -357,8 +361,12 @@ func cliCase(o *kit.Out, r *kit.Rand, idx int) {
 				}
 			})
 		}
+		setupT := t
 		return func(t *f1testing.T) {
 			k := started.Add(1)
+			if markSetupT && k == 1 {
+				setupT.Fail() // an iteration marks the scenario's own handle: not an iteration outcome, not a setup failure
+			}
 			if k <= f {
 				t.Fail()
 			}
